@@ -10,6 +10,7 @@ package main
 // node again), and checks that it serves.
 
 import (
+	"sync"
 	"context"
 	"fmt"
 	"math"
@@ -71,10 +72,11 @@ var rpcClasses = []rpcClass{
 	{"insert-oversized-metadata", "error", "Insert with a 300-byte metadata key (the snapshot format holds 255)"},
 	{"update-oversized-metadata", "error", "Update of a stored id with a 70000-byte metadata value; the item must stay"},
 	{"batch-duplicate-and-absent", "ok", "BatchUpdate / BatchRemove mixing duplicates and absent ids"},
+	{"delete-dataset-under-write-load", "ok", "25 x (create a dataset, write to it from three clients, delete it while they write)"},
 }
 
 func runRpc(c *Ctx) {
-	c.Stats.Rule = "one child process per request class (36 classes: malformed / truncated ids on every write RPC incl. the node-to-node PartitionBatch* RPCs, wrong and zero dimensions, zero partition / replica counts, unknown metric, k = 0 and k = 2^32-1, non-finite numbers, missing metadata, oversized batches, unknown ids) against a real single-node stack on disk, followed by a liveness probe and a restart that replays everything the requests left in the logs; every class is a distinct non-trivial case"
+	c.Stats.Rule = "one child process per request class (37 classes: malformed / truncated ids on every write RPC incl. the node-to-node PartitionBatch* RPCs, wrong and zero dimensions, zero partition / replica counts, unknown metric, k = 0 and k = 2^32-1, non-finite numbers, missing metadata, oversized batches, unknown ids) against a real single-node stack on disk, followed by a liveness probe and a restart that replays everything the requests left in the logs; every class is a distinct non-trivial case"
 	base := os.Getenv("VERIF_TMP")
 	if base == "" {
 		base = os.TempDir()
@@ -312,6 +314,49 @@ func childRpc(args []string) {
 		case "search-partitions-unknown-partition":
 			srv := &fakeServerStream{ctx: ctx}
 			return report(n.searchSrv.SearchPartitions(&pb.SearchPartitionsRequest{DatasetId: dsId.Bytes(), PartitionIds: [][]byte{pid.Bytes(), uuid.NewV4().Bytes()}, Query: amath.Vector{1, 1}, K: 3}, srv))
+		case "delete-dataset-under-write-load":
+			for round := 0; round < 25; round++ {
+				meta, err := n.dsSrv.Create(ctx, &pb.Dataset{Dimension: 2, Space: pb.Space_Euclidean, PartitionCount: 1, ReplicationFactor: 1})
+				if err != nil {
+					return "error unexpected: " + err.Error()
+				}
+				id := uuid.FromBytesOrNil(meta.GetId())
+				cl.injectClients(id)
+				waitFor(2*time.Second, func() bool {
+					dd := cl.dataset(1, id)
+					return dd != nil && dd.VerifPartitionAt(0).HasRaft()
+				})
+				if dd := cl.dataset(1, id); dd != nil && dd.VerifPartitionAt(0).HasRaft() {
+					dd.VerifPartitionAt(0).Raft().VerifCampaign()
+				}
+				stop := make(chan struct{})
+				var wg sync.WaitGroup
+				for w := 0; w < 3; w++ {
+					wg.Add(1)
+					go func(w int) {
+						defer wg.Done()
+						for i := 0; ; i++ {
+							select {
+							case <-stop:
+								return
+							default:
+							}
+							wctx, wcancel := context.WithTimeout(ctx, 300*time.Millisecond)
+							n.dmSrv.Insert(wctx, &pb.InsertRequest{DatasetId: id.Bytes(), Id: rid(w*1000 + i).Bytes(), Value: amath.Vector{float32(i), 1}})
+							wcancel()
+						}
+					}(w)
+				}
+				time.Sleep(time.Duration(20+round*3) * time.Millisecond)
+				_, derr := n.dsSrv.Delete(ctx, &pb.UUIDRequest{Id: id.Bytes()})
+				time.Sleep(20 * time.Millisecond)
+				close(stop)
+				wg.Wait()
+				if derr != nil {
+					return "error unexpected: delete: " + derr.Error()
+				}
+			}
+			return "ok"
 		case "delete-malformed-id":
 			_, err := n.dsSrv.Delete(ctx, &pb.UUIDRequest{Id: []byte{1, 2, 3, 4, 5}})
 			return report(err)
